@@ -14,7 +14,10 @@ CONSTANTS ExportOn
 Algs == {"ed", "p256"}
 Kinds == {"private", "public"}
 Encodings == {"raw", "hex", "prefixed", "der", "pem", "proto"}
-Corruptions == {"none", "truncate", "extend", "empty", "flip_first", "flip_last", "wrong_prefix"}
+\* unknown_prefix_*: the algorithm is named by something that is no algorithm at all
+\* (protobuf tag 2, -1, 255; string prefix "rsa", "ed25519x", "")
+UnknownPrefix == {"unknown_prefix_a", "unknown_prefix_b", "unknown_prefix_c"}
+Corruptions == {"none", "truncate", "extend", "empty", "flip_first", "flip_last", "wrong_prefix"} \cup UnknownPrefix
 DecodeAs == {"same", "other", "auto"}
 
 \* which cells exist in the API
@@ -36,6 +39,8 @@ Expect(enc, kind, alg, as, cor) ==
       [] cor = "wrong_prefix" ->
             IF enc \in {"prefixed", "proto"} THEN (IF kind = "private" /\ enc = "prefixed" THEN "FailOrDifferent" ELSE "MustFail")
             ELSE "NotApplicable"
+      \* an algorithm name / tag outside the two known ones is never read as one of them
+      [] cor \in UnknownPrefix -> IF enc \in {"prefixed", "proto"} THEN "MustFail" ELSE "NotApplicable"
       [] cor \in {"flip_first", "flip_last"} ->
             IF as = "other" THEN (IF enc \in {"raw", "hex"} /\ kind = "private" THEN "FailOrDifferent" ELSE "MustFail")
             ELSE "FailOrDifferent"
